@@ -39,6 +39,9 @@ def accept_term(v, pd, ut, mc, n):
         return amsg(r, pd, ut, mc, r, r, pd, ut, mc, n)
     if v == 7:
         return amsg(K, pd + 3, ut, mc, K, K, pd, ut, mc, n)
+    if v == 8:   # the genuine accept of the previous connection, replayed
+        kp = "(KDerived 7 %d)" % (n - 1)
+        return amsg(kp, pd, ut, mc, kp, kp, pd, ut, mc, n - 1)
     raise KeyError(v)
 
 
@@ -222,7 +225,8 @@ def gen_case(rng, focus, nops):
             if sim.conn:
                 sim.next = 1 if n == 0 else n
         elif k == "forged":
-            ops.append(["accept", rng.range(1, 7), rng.range(0, 3), rng.range(0, 3), rng.range(0, 9)])
+            ops.append(["accept", rng.weighted([(1, 1), (2, 1), (3, 1), (4, 1), (5, 1), (6, 1), (7, 1), (8, 3)]),
+                        rng.range(0, 3), rng.range(0, 3), rng.range(0, 9)])
         elif k == "genuine":
             ops.append(["accept", 0, rng.range(0, 3), rng.range(0, 3), rng.range(0, 9)])
             sim.acc = True
